@@ -492,5 +492,11 @@ PROPS["C12"]["explanation"] += " (BASETAGKEY) every look-up in the tag tree uses
 PROPS["C18"]["rules"] = PROPS["C18"]["rules"] + [rules_repack.rule_attr_copy_unconditional, rules_repack.rule_copy_interlace_pair]
 PROPS["C18"]["explanation"] = PROPS["C18"]["explanation"].replace(" Not decided (value-level)", " (ATTRCOND) attribute-copy calls are not conditioned on a property of the object's data; (RWIL) Vdata records are read and written with the same interlace argument. Not decided (value-level)")
 
+PROPS["C19"]["rules"] = PROPS["C19"]["rules"] + [rules_tools.rule_float_abs]
+PROPS["C19"]["explanation"] += " (FABS) the absolute value of a floating-point difference is never taken with the integer abs()."
+
+PROPS["C19"]["rules"] = PROPS["C19"]["rules"] + [rules_tools.rule_fmt_local_type]
+PROPS["C19"]["explanation"] += " (FMTTYPE) each hdp fmt<T> routine formats the value from a local of type T."
+
 NOT_APPLICABLE = {}
 
